@@ -8,11 +8,15 @@ import (
 	"io"
 	"os"
 	"os/exec"
+	"runtime"
 	"runtime/debug"
+	"strconv"
 	"strings"
 	"sync"
 	"syscall"
 	"time"
+
+	"verif/internal/h"
 )
 
 // Decoding damaged input (and, on this tree, some undamaged input) can end in `fatal error: stack overflow` or
@@ -24,7 +28,6 @@ import (
 const (
 	childAS       = 256 << 20 // address space the child may add to what it has at start (RLIMIT_AS)
 	childMaxStack = 16 << 20  // a decoder that needs more than 16 MiB of stack for a < 1 MiB input is looping
-	childTimeout  = 30 * time.Second
 )
 
 func childMain() {
@@ -148,10 +151,93 @@ func fatalSite(stderr string) string {
 	return ""
 }
 
-// inChild runs the experiment in the child process.
+// Wall-clock policy (a slow machine must never turn into a violation):
+//   - the worst generated case decodes in well under 0.5 s on an idle machine (a 256 MiB allocation is the slowest);
+//     the FIRST timeout is 60 s (> 100x that);
+//   - on expiry the parent keeps waiting, up to childHardLimit in total; an answer that arrives in that time is used
+//     normally (DecodeRes.Slow, class "slow-but-answered");
+//   - only a child that is still silent at the hard limit is killed. If the 1-minute load average then exceeds
+//     3 x NumCPU the outcome is a harness outcome (key C08:harness:child-timeout-under-load => INCONCLUSIVE), else it is a
+//     hang finding;
+//   - after the first hard-limit expiry in a process later requests fail fast (same outcome) after
+//     max(5 s, 20 x the slowest answer seen so far), so that shrinking and the remaining budget stay within the wall
+//     ceiling of the driver;
+//   - a child that dies WITHOUT a Go runtime message on stderr was killed from outside (OOM killer, operator): the
+//     request is repeated once in a fresh child and, if the death repeats, reported under C08:harness:child-killed;
+//     a death WITH a runtime message is repeated once as well and only counts when it reproduces.
+const (
+	childSoftTimeout = 60 * time.Second
+	childHardLimit   = 480 * time.Second
+)
+
+var (
+	childHangSeen   bool          // a hard-limit expiry happened in this process
+	childSlowestAns time.Duration // slowest answered request so far
+)
+
+func loadAverage1() float64 {
+	b, err := os.ReadFile("/proc/loadavg")
+	if err != nil {
+		return 0
+	}
+	var l float64
+	fmt.Sscan(string(b), &l)
+	return l
+}
+
+// overloaded: 1-minute load average above 3 x NumCPU (the factor can be changed with C08_LOAD_FACTOR to exercise the
+// hang path on a busy machine).
+func overloaded() bool {
+	f := 3.0
+	if v, err := strconv.ParseFloat(os.Getenv("C08_LOAD_FACTOR"), 64); err == nil && v > 0 {
+		f = v
+	}
+	return loadAverage1() > f*float64(runtime.NumCPU())
+}
+
+// preJudge books a slow answer and returns the harness failure, if any, that makes the experiment unjudgeable.
+func preJudge(res DecodeRes, rec *h.Rec) error {
+	if res.Slow {
+		rec.Class("slow-but-answered")
+		rec.Note("slow", res.Note)
+	}
+	return harnessOutcome(res)
+}
+
+// harnessOutcome returns a C08:harness failure when the experiment could not be judged (timeout under load, child
+// killed from outside); nil otherwise.
+func harnessOutcome(res DecodeRes) error {
+	switch {
+	case strings.HasPrefix(res.Died, "timeout-under-load"):
+		return h.Failf("C08:harness:child-timeout-under-load", "%s", res.Died)
+	case strings.HasPrefix(res.Died, "killed-externally"):
+		return h.Failf("C08:harness:child-killed", "%s", res.Died)
+	}
+	return nil
+}
+
+// inChild runs the experiment in the child process (see the wall-clock policy above).
 func inChild(req DecodeReq) DecodeRes {
 	childMu.Lock()
 	defer childMu.Unlock()
+	res := inChildOnce(req)
+	if res.Died != "" && !strings.HasPrefix(res.Died, "hang") && !strings.HasPrefix(res.Died, "timeout-under-load") {
+		// a death must reproduce in a fresh child before it is blamed on the decoder
+		res2 := inChildOnce(req)
+		if res2.Died == "" {
+			res2.Slow = true
+			res2.Note = "first attempt died (" + res.Died + "), the repetition answered"
+			return res2
+		}
+		if strings.HasPrefix(res2.Died, "killed-externally") && !strings.HasPrefix(res.Died, "killed-externally") {
+			return res // keep the death that carries a runtime message
+		}
+		return res2
+	}
+	return res
+}
+
+func inChildOnce(req DecodeReq) DecodeRes {
 	var err error
 	if child == nil {
 		if child, err = startChild(); err != nil {
@@ -174,18 +260,44 @@ func inChild(req DecodeReq) DecodeRes {
 		l, e := c.stdout.ReadBytes('\n')
 		ch <- reply{l, e}
 	}()
+	soft, hard := childSoftTimeout, childHardLimit
+	if childHangSeen {
+		// fail fast after the first full wait
+		hard = 20 * childSlowestAns
+		if hard < 5*time.Second {
+			hard = 5 * time.Second
+		}
+		if hard > childSoftTimeout {
+			hard = childSoftTimeout
+		}
+		soft = hard
+	}
+	start := time.Now()
 	var rp reply
-	hung := false
+	hung, slow := false, false
 	select {
 	case rp = <-ch:
-	case <-time.After(childTimeout):
-		hung = true
-		c.cmd.Process.Kill()
-		rp = <-ch
+	case <-time.After(soft):
+		slow = true
+		select {
+		case rp = <-ch:
+		case <-time.After(hard - soft):
+			hung = true
+			c.cmd.Process.Kill()
+			rp = <-ch
+		}
 	}
-	if rp.err == nil && len(rp.line) > 0 {
+	waited := time.Since(start)
+	if !hung && rp.err == nil && len(rp.line) > 0 {
 		var res DecodeRes
 		if e := json.Unmarshal(rp.line, &res); e == nil {
+			if waited > childSlowestAns {
+				childSlowestAns = waited
+			}
+			if slow {
+				res.Slow = true
+				res.Note = fmt.Sprintf("answered after %v (first timeout %v)", waited.Round(time.Second), soft)
+			}
 			return res
 		} else {
 			rp.err = e
@@ -201,11 +313,19 @@ func inChild(req DecodeReq) DecodeRes {
 	res.Rest = -1
 	switch {
 	case hung:
-		res.Died = fmt.Sprintf("hang: no answer within %v", childTimeout)
+		load := loadAverage1()
+		if overloaded() {
+			res.Died = fmt.Sprintf("timeout-under-load: no answer within %v, 1-minute load average %.0f on %d CPUs", waited.Round(time.Second), load, runtime.NumCPU())
+		} else {
+			res.Died = fmt.Sprintf("hang: no answer within %v (1-minute load average %.1f on %d CPUs)", waited.Round(time.Second), load, runtime.NumCPU())
+		}
+		childHangSeen = true
 	default:
 		res.Died = fatalSummary(se)
-		if res.Died == "" {
-			res.Died = "child exited: " + fmt.Sprint(rp.err)
+		if res.Died == "" || !(strings.Contains(res.Died, "fatal error") || strings.Contains(res.Died, "stack exceeds") || strings.HasPrefix(res.Died, "panic:")) {
+			// no Go runtime message: the process was killed from outside
+			res.Died = "killed-externally: the child ended without a runtime message (" + fmt.Sprint(rp.err) + "; stderr: " + res.Died + ")"
+			break
 		}
 		if s := fatalSite(se); s != "" {
 			res.Died += " @ " + s
